@@ -1,7 +1,7 @@
 """GUARD-live / CMP rules on the six lookups: every hit path re-checks full liveness of the entry it
 returns, with the exact (inclusive deadline, strict watermark) comparisons and operand roles."""
 from .core import RuleResult, CheckFailure
-from .roles import named, get_roles, CHAN_SEND
+from .roles import named, get_roles, CHAN_SEND, ts_name_kind
 from .kernel import norm
 from .symex import fmt, subterms, PathLimit, OPTION
 
@@ -80,8 +80,8 @@ def ts_kind(t):
             last = str(x[1]).split('::')[-1]
             if last in TS_KIND:
                 kinds.add(TS_KIND[last])
-        if isinstance(x, tuple) and x and x[0] == 'fld' and x[2] in TS_KIND:
-            kinds.add(TS_KIND[x[2]])
+        if isinstance(x, tuple) and x and x[0] == 'fld' and ts_name_kind(x[2]):
+            kinds.add(ts_name_kind(x[2]))
     return kinds
 
 
@@ -369,15 +369,21 @@ def rule_miss_reasons(ctx):
             p = row['path']
             lits = row['lits_miss']
             cause = None
+            is_iter = 'Iterator' in nid
             for t, v in lits:
                 f = classify_literal(t, v)
-                if f and f['what'] in ('deadline', 'watermark') and f['state'] in ('expired', 'invalidated'):
+                # an iterator skips an expired entry and goes on: only exhaustion ends it (an expired entry is no reason to report "no more entries")
+                if f and f['what'] in ('deadline', 'watermark') and f['state'] in ('expired', 'invalidated') and not is_iter:
                     cause = f['state'] + ' (' + f['shape'] + ')'
             if cause is None:
                 for t, v in lits:
                     if isinstance(t, tuple) and t and t[0] == 'discr' and v == 0 and (
                             has_call(t[1], MAP_LOOKUPS) or has_call(t[1], ('::next',))):
                         cause = 'no entry / iterator exhausted'
+                if is_iter and cause and any(isinstance(t, tuple) and t and t[0] == 'discr' and v == 1 and has_call(t[1], ('::next',)) and not has_call(t[1], ('checked_add',))
+                                             and isinstance(t[1], tuple) and t[1][0] == 'call' for t, v in lits) and not any(
+                        isinstance(t, tuple) and t and t[0] == 'discr' and v == 0 and isinstance(t[1], tuple) and t[1][0] == 'call' and str(t[1][1]).endswith('::next') for t, v in lits):
+                    cause = None
             r.instance(lookup=nid, returns=fmt(p.ret)[:40], cause=cause)
             if cause is None:
                 r.violate(nid, 'miss-without-cause', fmt(p.ret)[:40],
